@@ -1,7 +1,765 @@
 package reng
 
-// placeholders, replaced below as the specialised case runners are written
-func RunChainCase(e *Engine, p Profile)  { RunStd(e, p) }
-func RunGateCase(e *Engine)              { RunStd(e, Profiles("C01")) }
-func RunResizeCase(e *Engine, p Profile) { RunStd(e, p) }
-func RunRevCase(e *Engine, p Profile)    { RunStd(e, p) }
+import (
+	"fmt"
+	"os"
+	"path/filepath"
+	"strconv"
+	"strings"
+	"sync"
+	"sync/atomic"
+
+	"github.com/openebs/jiva/types"
+
+	"verif/harness/internal/fsx"
+)
+
+// ---------------------------------------------------------------- C10: revision counter
+
+func (e *Engine) SetMode(mode string) {
+	if e.Dead {
+		return
+	}
+	op := e.rec(Op{K: "setmode", Arg: mode})
+	if err := e.Srv.SetReplicaMode(mode); err != nil {
+		op.Err = err.Error()
+		e.Fail("C17", "setmode:refused", err.Error())
+		return
+	}
+	e.M.Mode = mode
+}
+
+func (e *Engine) SetRev(v int64) {
+	if e.Dead {
+		return
+	}
+	op := e.rec(Op{K: "setrev", Size: v})
+	err := e.Srv.SetRevisionCounter(v)
+	e.Res.Count("setrev_"+e.M.Mode, 1)
+	if e.M.Mode == "RW" {
+		if err != nil {
+			op.Err = err.Error()
+			e.Fail("C10", "setrev:refused-in-RW", err.Error())
+			return
+		}
+		e.M.Rev = v
+	} else if err == nil {
+		e.Fail("C17", "setrev:accepted-in-"+e.M.Mode, fmt.Sprintf("SetRevisionCounter(%d) accepted in mode %s", v, e.M.Mode))
+		return
+	}
+	e.checkRev()
+}
+
+// ConcurrentWrites issues n*m block writes from n goroutines on disjoint
+// block sets and checks the counter arithmetic.
+func (e *Engine) ConcurrentWrites(n, m int) {
+	if e.Dead {
+		return
+	}
+	nb := int(e.M.Size / Block)
+	if nb < n {
+		n = nb
+	}
+	e.rec(Op{K: "concurrent", Off: int64(n), Len: int64(m)})
+	before := e.Srv.Replica().GetRevisionCounter()
+	var issued, completed int64
+	var wg sync.WaitGroup
+	errs := make(chan error, n*m)
+	type wr struct {
+		off int64
+		wid uint32
+	}
+	plan := make([][]wr, n)
+	for g := 0; g < n; g++ {
+		for i := 0; i < m; i++ {
+			// goroutine g owns blocks b with b%n==g
+			k := e.R.Intn((nb-g+n-1)/n)
+			b := g + k*n
+			plan[g] = append(plan[g], wr{int64(b) * Block, e.M.NextWID})
+			e.M.NextWID++
+		}
+	}
+	stop := make(chan struct{})
+	var sampleBad atomic.Value
+	go func() { // concurrent sampler
+		for {
+			select {
+			case <-stop:
+				return
+			default:
+			}
+			c := atomic.LoadInt64(&completed)
+			v := e.Srv.Replica().GetRevisionCounter()
+			i := atomic.LoadInt64(&issued)
+			if v < before+c || v > before+i {
+				sampleBad.Store(fmt.Sprintf("sample %d outside [%d,%d]", v, before+c, before+i))
+			}
+			e.Res.Count("concurrent_samples", 1)
+		}
+	}()
+	for g := 0; g < n; g++ {
+		wg.Add(1)
+		go func(g int) {
+			defer wg.Done()
+			for _, w := range plan[g] {
+				buf := Payload(w.off, Block, w.wid)
+				atomic.AddInt64(&issued, 1)
+				if _, err := e.Srv.WriteAt(buf, w.off); err != nil {
+					errs <- err
+					return
+				}
+				atomic.AddInt64(&completed, 1)
+			}
+		}(g)
+	}
+	wg.Wait()
+	close(stop)
+	for g := 0; g < n; g++ {
+		for _, w := range plan[g] {
+			e.M.Write(w.off, Block, w.wid)
+		}
+	}
+	e.Res.Count("concurrent_runs", 1)
+	e.Res.Count("writes", int64(n*m))
+	select {
+	case err := <-errs:
+		e.Fail("C01", "write:error-concurrent", err.Error())
+		return
+	default:
+	}
+	if s := sampleBad.Load(); s != nil && e.M.Mode == "RW" {
+		e.Fail("C10", "rev:concurrent-sample-out-of-bounds", s.(string))
+		return
+	}
+	e.checkRev()
+}
+
+func RunRevCase(e *Engine, p Profile) {
+	r := e.R
+	blocks := r.Range(16, 96)
+	punch := r.Chance(p.PunchPct)
+	nops := r.Range(p.MinOps, p.MaxOps)
+	e.Cfg = map[string]interface{}{"blocks": blocks, "punch": punch, "ops": nops, "profile": "C10"}
+	if err := e.Create(int64(blocks)*Block, punch); err != nil {
+		e.Res.Inconclusive = append(e.Res.Inconclusive, fmt.Sprintf("case %d: create failed: %v", e.Case, err))
+		return
+	}
+	defer e.Destroy()
+	for i := 0; i < nops && !e.Dead; i++ {
+		switch r.Pick([]int{50, 12, 6, 8, 10, 6}) {
+		case 0:
+			e.Step(p)
+			if e.R.Chance(40) {
+				e.checkRev()
+			}
+		case 1:
+			if e.M.Mode == "RW" {
+				e.SetMode("WO")
+			} else {
+				e.SetMode("RW")
+			}
+		case 2:
+			if r.Chance(40) { // explicit sets may also go down
+				e.SetRev(int64(r.Range(1, int(e.M.Rev))))
+			} else {
+				e.SetRev(e.M.Rev + int64(r.Range(0, 50)))
+			}
+		case 3:
+			e.ConcurrentWrites([]int{2, 4, 8, 16}[r.Intn(4)], r.Range(3, 25))
+		case 4:
+			e.Reopen(r.Bool())
+			e.checkRev()
+		case 5:
+			if e.M.Mode != "RW" {
+				e.SetMode("RW") // chain operations need RW
+			}
+			e.Snapshot(r.Bool())
+		}
+		if i%8 == 7 {
+			e.Check(false)
+		}
+	}
+	e.Check(false)
+	e.nMut++ // mode flips and sets are this property's mutations
+}
+
+// ---------------------------------------------------------------- C16: resize
+
+func (e *Engine) BadResize(arg, cls string) {
+	if e.Dead {
+		return
+	}
+	op := e.rec(Op{K: "badresize", Arg: arg, Note: cls})
+	err := e.Srv.Resize(arg)
+	e.Res.Count("resize_refusals_probed", 1)
+	if err == nil {
+		_, info := e.Srv.Status()
+		if info.Size != e.M.Size {
+			e.Fail("C16", "resize:"+cls+"-accepted", fmt.Sprintf("Resize(%q) accepted on a volume of %d bytes; size now %d", arg, e.M.Size, info.Size))
+			return
+		}
+		op.Note += ":noop"
+		return
+	}
+	op.Err = err.Error()
+	_, info := e.Srv.Status()
+	if info.Size != e.M.Size {
+		e.Fail("C16", "resize:"+cls+"-refused-but-size-changed", fmt.Sprintf("Resize(%q) refused but size is %d, was %d", arg, info.Size, e.M.Size))
+	}
+}
+
+func RunResizeCase(e *Engine, p Profile) {
+	r := e.R
+	blocks := r.Range(16, 96)
+	punch := r.Chance(p.PunchPct)
+	nops := r.Range(p.MinOps, p.MaxOps)
+	e.Cfg = map[string]interface{}{"blocks": blocks, "punch": punch, "ops": nops, "profile": "C16"}
+	if err := e.Create(int64(blocks)*Block, punch); err != nil {
+		e.Res.Inconclusive = append(e.Res.Inconclusive, fmt.Sprintf("case %d: create failed: %v", e.Case, err))
+		return
+	}
+	defer e.Destroy()
+	for i := 0; i < nops && !e.Dead; i++ {
+		switch r.Pick([]int{70, 12, 10, 8}) {
+		case 0:
+			e.Step(p)
+		case 1:
+			add := int64(r.Range(1, 24)) * Block
+			how := "bytes"
+			if r.Bool() {
+				how = "human"
+			}
+			e.Resize(e.M.Size+add, how)
+			// the new range accepts writes
+			if !e.Dead && r.Chance(70) {
+				l := int64(r.Range(1, int(add/Sector))) * Sector
+				e.Write(e.M.Size-l, l)
+			}
+			e.Check(true)
+		case 2:
+			sz := e.M.Size
+			switch r.Intn(5) {
+			case 0:
+				e.BadResize(strconv.FormatInt(sz-int64(r.Range(1, int(sz/Block)-1))*Block, 10), "shrink")
+			case 1:
+				e.BadResize(strconv.FormatInt(sz/2048, 10)+"k", "shrink")
+			case 2:
+				e.BadResize([]string{"abc", "-1", "12q", "1e3", " ", "0x1000"}[r.Intn(6)], "garbage")
+			case 3:
+				e.BadResize("", "empty")
+			case 4:
+				e.BadResize("0", "zero")
+			}
+			e.Check(false)
+		case 3:
+			e.Reopen(r.Bool())
+			if _, info := e.Srv.Status(); !e.Dead && info.Size != e.M.Size {
+				e.Fail("C16", "resize:size-lost-on-reopen", fmt.Sprintf("size after reopen %d, expected %d", info.Size, e.M.Size))
+			}
+			e.Check(true)
+		}
+		if i%8 == 7 {
+			e.Check(false)
+		}
+	}
+	e.Check(true)
+}
+
+// ---------------------------------------------------------------- C12: hostile chain requests
+
+type dirState struct {
+	chain []string
+	files []string
+}
+
+// BadReq issues one management request that must not change anything and
+// verifies that chain, attributes, files and data are as before.
+func (e *Engine) BadReq(kind, name, cls string, f func() error) {
+	if e.Dead {
+		return
+	}
+	op := e.rec(Op{K: "badreq", Arg: kind, Name: name, Note: cls})
+	err := f()
+	e.Res.Count("bad_requests", 1)
+	outcome := "accepted"
+	if err != nil {
+		outcome = "refused"
+		op.Err = err.Error()
+	}
+	sig := fmt.Sprintf("badreq:%s:name-class=%s:%s", kind, cls, outcome)
+	// chain and attributes
+	if e.Srv.Replica() != nil {
+		pre := len(e.Res.Violations)
+		dead := e.Dead
+		e.checkChain("after " + kind)
+		if e.Dead && !dead {
+			e.retag(pre, "C12", sig+":chain-changed")
+			return
+		}
+		buf, rerr := e.FullRead()
+		if rerr != nil {
+			e.Fail("C12", sig+":read-error", rerr.Error())
+			return
+		}
+		if d, n := Diff(buf, 0, e.M.Live); d != "" {
+			e.Fail("C12", sig+":data-changed", fmt.Sprintf("%s(%q) was %s (%v) and %d sectors changed; first: %s", kind, name, outcome, err, n, d))
+			return
+		}
+	}
+	// every chain member still has its files
+	for _, n := range e.M.ChainNames() {
+		for _, suf := range []string{"", ".meta"} {
+			if _, serr := os.Stat(filepath.Join(e.Dir, n+suf)); serr != nil {
+				e.Fail("C12", sig+":member-file-gone", fmt.Sprintf("%s(%q) was %s (%v); chain member file %s%s is gone", kind, name, outcome, err, n, suf))
+				return
+			}
+		}
+	}
+}
+
+// retag rewrites the signature of violations recorded since index pre.
+func (e *Engine) retag(pre int, prop, sig string) {
+	for i := pre; i < len(e.Res.Violations); i++ {
+		e.Res.Violations[i].Signature = sig
+		e.Res.Violations[i].Property = prop
+	}
+}
+
+func (e *Engine) hostileName() (string, string) {
+	r := e.R
+	n := len(e.M.Chain)
+	switch r.Intn(9) {
+	case 0:
+		return e.M.HeadName(), "head"
+	case 1:
+		if n > 0 {
+			return e.M.Chain[n-1].Name, "latest"
+		}
+	case 2:
+		if n > 1 {
+			return e.M.Chain[0].Name, "base"
+		}
+	case 3:
+		return fmt.Sprintf("volume-snap-nope%d.img", r.Intn(100)), "unknown"
+	case 4:
+		return fmt.Sprintf("nope%d", r.Intn(100)), "no-prefix"
+	case 5:
+		return "volume.meta", "volume-meta"
+	case 6:
+		if n > 0 {
+			return e.M.Chain[r.Intn(n)].Name + ".meta", "metadata-file"
+		}
+	case 7:
+		return e.M.HeadName() + ".meta", "metadata-file"
+	case 8:
+		return "revision.counter", "revision-file"
+	}
+	return "", "empty"
+}
+
+// verifyReopen closes and reopens and compares everything with the model.
+func (e *Engine) verifyReopen() {
+	if e.Dead {
+		return
+	}
+	cp := e.M.Checkpoint
+	e.Reopen(e.R.Bool())
+	if e.Dead {
+		return
+	}
+	_, info := e.Srv.Status()
+	if info.Size != e.M.Size {
+		e.Fail("C12", "reopen:size-differs", fmt.Sprintf("size %d, model %d", info.Size, e.M.Size))
+		return
+	}
+	if info.Checkpoint != cp {
+		e.Fail("C12", "reopen:checkpoint-differs", fmt.Sprintf("checkpoint %q, model %q", info.Checkpoint, cp))
+		return
+	}
+	e.Check(e.R.Chance(30))
+}
+
+func RunChainCase(e *Engine, p Profile) {
+	r := e.R
+	blocks := r.Range(16, 64)
+	punch := r.Chance(p.PunchPct)
+	nops := r.Range(p.MinOps, p.MaxOps)
+	e.Cfg = map[string]interface{}{"blocks": blocks, "punch": punch, "ops": nops, "profile": "C12"}
+	if err := e.Create(int64(blocks)*Block, punch); err != nil {
+		e.Res.Inconclusive = append(e.Res.Inconclusive, fmt.Sprintf("case %d: create failed: %v", e.Case, err))
+		return
+	}
+	defer e.Destroy()
+	limit := 0
+	if r.Chance(35) {
+		limit = r.Range(4, 9)
+		types.MaxChainLength = limit // what MAX_CHAIN_LENGTH sets in production
+		e.Cfg["max_chain_length"] = limit
+		// snapshots are only attempted through the near-limit operation below
+		w := map[string]int{}
+		for k, v := range p.W {
+			w[k] = v
+		}
+		w["usnap"], w["asnap"] = 0, 0
+		p.W = w
+	}
+	var orphans []string
+	for i := 0; i < nops && !e.Dead; i++ {
+		pick := r.Pick([]int{45, 30, 10, 5, 10})
+		if limit > 0 && r.Chance(30) {
+			pick = 5
+		}
+		switch pick {
+		case 5: // snapshot near the configured chain limit: may be refused, must then change nothing
+			name := fmt.Sprintf("s%d", e.M.NextSnap)
+			e.M.NextSnap++
+			user := r.Bool()
+			op := e.rec(Op{K: "snapshot", Name: name, User: user, Note: "near-limit"})
+			e.nMut++
+			if err := e.Srv.Snapshot(name, user, now()); err != nil {
+				op.Err = err.Error()
+				op.K = "badreq"
+				op.Arg = "snapshot"
+				e.Res.Count("snapshots_refused_at_limit", 1)
+			} else {
+				e.M.Snapshot(name, user)
+				e.Res.Count("snapshots", 1)
+			}
+			e.Check(false)
+			if r.Chance(40) {
+				e.verifyReopen()
+			}
+		case 0: // valid operations
+			before := len(e.M.Chain)
+			var dropped []string
+			preNames := e.M.ChainNames()
+			if e.Step(p) {
+				if len(e.Log) > 0 && e.Log[len(e.Log)-1].K == "check" {
+				}
+				_ = before
+				// remember orphans created by a revert
+				for _, l := range e.Log[maxi(0, len(e.Log)-3):] {
+					if l.K == "revert" && l.Err == "" {
+						post := map[string]bool{}
+						for _, n := range e.M.ChainNames() {
+							post[n] = true
+						}
+						for _, n := range preNames[1:] {
+							if !post[n] {
+								dropped = append(dropped, n)
+							}
+						}
+					}
+				}
+				orphans = append(orphans, dropped...)
+				e.Check(false)
+			}
+		case 1: // requests that must be refused or be no-ops
+			name, cls := e.hostileName()
+			switch r.Intn(7) {
+			case 0:
+				e.BadReq("removedisk", name, cls, func() error { return e.Srv.RemoveDiffDisk(name) })
+			case 1:
+				e.BadReq("prepareremovedisk", name, cls, func() error { _, err := e.Srv.PrepareRemoveDisk(name); return err })
+			case 2:
+				if cls == "latest" || cls == "base" { // a valid revert target: not a bad request
+					continue
+				}
+				e.BadReq("revert", name, cls, func() error { return e.Srv.Revert(name, now()) })
+			case 3:
+				// duplicate snapshot name
+				if len(e.M.Chain) == 0 {
+					continue
+				}
+				m := e.M.Chain[r.Intn(len(e.M.Chain))]
+				short := strings.TrimSuffix(strings.TrimPrefix(m.Name, "volume-snap-"), ".img")
+				e.BadReq("snapshot", short, "duplicate", func() error { return e.Srv.Snapshot(short, r.Bool(), now()) })
+			case 4:
+				src, scls := e.hostileName()
+				if cls != "head" && (scls == "latest" || scls == "base" || scls == "head") {
+					continue // would be a (destructive) well-formed replace, not a bad request
+				}
+				if cls != "head" && cls != "unknown" && cls != "no-prefix" {
+					continue
+				}
+				e.BadReq("replacedisk", name+"<-"+src, cls+"<-"+scls, func() error { return e.Srv.ReplaceDisk(name, src) })
+			case 5:
+				sz := e.M.Size
+				arg := strconv.FormatInt(sz-Block, 10)
+				e.BadReq("resize", arg, "shrink", func() error { return e.Srv.Resize(arg) })
+			case 6:
+				// wrong mode: chain surgery in WO
+				if len(e.M.Chain) < 3 {
+					continue
+				}
+				x := e.M.Chain[r.Range(1, len(e.M.Chain)-2)].Name
+				e.Srv.SetReplicaMode("WO")
+				if r.Bool() {
+					e.BadReq("removedisk", x, "valid-but-WO", func() error { return e.Srv.RemoveDiffDisk(x) })
+				} else {
+					e.BadReq("prepareremovedisk", x, "valid-but-WO", func() error { _, err := e.Srv.PrepareRemoveDisk(x); return err })
+				}
+				e.Srv.SetReplicaMode("RW")
+				// the request must not have marked the disk removed
+				if !e.Dead {
+					e.checkChain("after WO request")
+				}
+			}
+		case 2:
+			e.verifyReopen()
+		case 3: // legitimate orphan clean-up after a revert
+			if len(orphans) == 0 {
+				continue
+			}
+			o := orphans[len(orphans)-1]
+			orphans = orphans[:len(orphans)-1]
+			if e.M.Find(o) >= 0 || o == e.M.HeadName() {
+				continue
+			}
+			op := e.rec(Op{K: "rmorphan", Name: o})
+			if err := e.Srv.RemoveDiffDisk(o); err != nil {
+				op.Err = err.Error()
+			}
+			e.Res.Count("orphan_removals", 1)
+			e.Check(false)
+		case 4: // requests on a closed replica
+			if err := e.Srv.Close(); err != nil {
+				e.Fail("C12", "close:error", err.Error())
+				break
+			}
+			e.rec(Op{K: "close"})
+			h1, _ := fsx.DirHash(e.Dir, nil)
+			name, _ := e.hostileName()
+			calls := map[string]func() error{
+				"snapshot":          func() error { return e.Srv.Snapshot("zz", true, now()) },
+				"removedisk":        func() error { return e.Srv.RemoveDiffDisk(name) },
+				"prepareremovedisk": func() error { _, err := e.Srv.PrepareRemoveDisk(name); return err },
+				"revert":            func() error { return e.Srv.Revert(name, now()) },
+				"resize":            func() error { return e.Srv.Resize(strconv.FormatInt(e.M.Size+Block, 10)) },
+				"setcheckpoint":     func() error { return e.Srv.SetCheckpoint("x") },
+				"reload":            func() error { return e.Srv.Reload() },
+			}
+			for k, f := range calls {
+				err := f()
+				e.Res.Count("closed_state_requests", 1)
+				if err == nil {
+					e.Fail("C12", "closed:"+k+":accepted", k+" accepted on a closed replica")
+				}
+			}
+			h2, _ := fsx.DirHash(e.Dir, nil)
+			if h1 != h2 && !e.Dead {
+				e.Fail("C12", "closed:directory-changed", "requests on a closed replica changed the directory")
+			}
+			e.Srv.SetPreload(r.Bool())
+			if err := e.Srv.Open(); err != nil && !e.Dead {
+				e.Fail("C12", "reopen:open-failed:closed-requests", err.Error())
+				break
+			}
+			e.Srv.SetReplicaMode("RW")
+			e.nReopen++
+			e.Check(false)
+		}
+	}
+	e.verifyReopen()
+	_ = types.RW
+}
+
+func maxi(a, b int) int {
+	if a > b {
+		return a
+	}
+	return b
+}
+
+// ---------------------------------------------------------------- C17: gating (engine part)
+
+func RunGateCase(e *Engine) {
+	r := e.R
+	blocks := r.Range(16, 48)
+	e.Cfg = map[string]interface{}{"blocks": blocks, "profile": "C17"}
+	if err := e.Create(int64(blocks)*Block, false); err != nil {
+		e.Res.Inconclusive = append(e.Res.Inconclusive, fmt.Sprintf("case %d: create failed: %v", e.Case, err))
+		return
+	}
+	defer e.Destroy()
+	p := Profiles("C01")
+	p.W["reload"] = 0
+	state := "RW" // closed | INIT | RW | WO
+	steps := r.Range(20, 40)
+	visited := ""
+	for i := 0; i < steps && !e.Dead; i++ {
+		visited += state[:1]
+		switch state {
+		case "RW", "WO":
+			switch r.Pick([]int{40, 15, 15, 15, 15}) {
+			case 0:
+				if state == "RW" {
+					e.Step(p)
+				} else {
+					o, l, _ := e.GenRange()
+					e.Write(o, l)
+				}
+			case 1: // flip mode
+				if state == "RW" {
+					e.SetMode("WO")
+					state = "WO"
+				} else {
+					e.SetMode("RW")
+					state = "RW"
+				}
+			case 2: // gated operations
+				e.gateProbe(state)
+			case 3: // close
+				e.rec(Op{K: "close"})
+				if err := e.Srv.Close(); err != nil {
+					e.Fail("C17", "close:error", err.Error())
+				}
+				state = "closed"
+			case 4:
+				e.Check(false)
+			}
+		case "closed":
+			if r.Chance(60) {
+				e.closedProbe()
+			} else {
+				e.rec(Op{K: "open"})
+				e.Srv.SetPreload(r.Bool())
+				if err := e.Srv.Open(); err != nil {
+					e.Fail("C17", "open:error", err.Error())
+					break
+				}
+				e.nReopen++
+				state = "INIT"
+			}
+		case "INIT":
+			if r.Chance(60) {
+				e.initProbe()
+			} else {
+				m := []string{"RW", "WO"}[r.Intn(2)]
+				e.SetMode(m)
+				state = m
+			}
+		}
+	}
+	if state == "closed" {
+		e.Srv.Open()
+		state = "INIT"
+	}
+	if state != "RW" {
+		e.SetMode("RW")
+	}
+	e.Check(false)
+	e.Cfg["states"] = visited
+	e.nMut++
+}
+
+// payloadFromModel rebuilds the current content of a range, so that a probe
+// write cannot change the image whether or not its bytes land.
+func (e *Engine) payloadFromModel(off, length int64) []byte {
+	buf := make([]byte, length)
+	for i := int64(0); i < length/Sector; i++ {
+		s := off/Sector + i
+		FillSector(buf[i*Sector:], e.M.Live[s], uint32(s))
+	}
+	return buf
+}
+
+func (e *Engine) gateProbe(state string) {
+	r := e.R
+	n := len(e.M.Chain)
+	if state == "RW" {
+		e.SetRev(e.M.Rev + int64(r.Intn(5)))
+		return
+	}
+	// WO: chain surgery and counter updates are refused without side effects
+	revBefore := e.Srv.Replica().GetRevisionCounter()
+	h := func() string { s, _ := fsx.DirHash(e.Dir, map[string]bool{"volume.meta": true}); return s }
+	before := h()
+	name := fmt.Sprintf("volume-snap-nope%d.img", r.Intn(9))
+	if n >= 3 {
+		name = e.M.Chain[r.Range(1, n-2)].Name
+	}
+	probes := map[string]func() error{
+		"removedisk":         func() error { return e.Srv.RemoveDiffDisk(name) },
+		"prepareremovedisk":  func() error { _, err := e.Srv.PrepareRemoveDisk(name); return err },
+		"replacedisk":        func() error { return e.Srv.ReplaceDisk(name, name) },
+		"setrevisioncounter": func() error { return e.Srv.SetRevisionCounter(revBefore + 7) },
+	}
+	for k, f := range probes {
+		e.rec(Op{K: "gate", Arg: k, Name: name, Note: "WO"})
+		err := f()
+		e.Res.Count("gate_probes_WO", 1)
+		if err == nil {
+			e.Fail("C17", "gate:"+k+":accepted-in-WO", fmt.Sprintf("%s(%s) accepted while the replica is WO", k, name))
+			return
+		}
+	}
+	if h() != before {
+		e.Fail("C17", "gate:refused-but-directory-changed-in-WO", "a refused request changed the directory")
+		return
+	}
+	if v := e.Srv.Replica().GetRevisionCounter(); v != revBefore {
+		e.Fail("C17", "gate:counter-moved-in-WO", fmt.Sprintf("revision counter %d -> %d by refused requests", revBefore, v))
+		return
+	}
+	e.checkChain("after WO gate probes")
+}
+
+func (e *Engine) closedProbe() {
+	r := e.R
+	h := func() string { s, _ := fsx.DirHash(e.Dir, nil); return s }
+	before := h()
+	o, l := e.RandRange()
+	buf := make([]byte, l)
+	probes := map[string]func() error{
+		"write":              func() error { _, err := e.Srv.WriteAt(Payload(o, l, 0xfffffff0), o); return err },
+		"read":               func() error { _, err := e.Srv.ReadAt(buf, o); return err },
+		"sync":               func() error { _, err := e.Srv.Sync(); return err },
+		"unmap":              func() error { _, err := e.Srv.Unmap(o, l); return err },
+		"removedisk":         func() error { return e.Srv.RemoveDiffDisk("volume-snap-s0.img") },
+		"prepareremovedisk":  func() error { _, err := e.Srv.PrepareRemoveDisk("volume-snap-s0.img"); return err },
+		"setrevisioncounter": func() error { return e.Srv.SetRevisionCounter(int64(r.Intn(1000))) },
+		"setreplicamode":     func() error { return e.Srv.SetReplicaMode("RW") },
+		"snapshot":           func() error { return e.Srv.Snapshot("zz", true, now()) },
+	}
+	for k, f := range probes {
+		e.rec(Op{K: "gate", Arg: k, Note: "closed"})
+		err := f()
+		e.Res.Count("gate_probes_closed", 1)
+		if err == nil {
+			e.Fail("C17", "gate:"+k+":accepted-when-closed", k+" succeeded on a closed replica")
+			return
+		}
+	}
+	if h() != before {
+		e.Fail("C17", "gate:closed-directory-changed", "I/O or management requests on a closed replica changed its directory")
+	}
+}
+
+func (e *Engine) initProbe() {
+	// open, mode not yet set: a write must be reported as failed and must not count
+	rev := e.Srv.Replica().GetRevisionCounter()
+	o, l := e.RandRange()
+	e.rec(Op{K: "gate", Arg: "write", Note: "INIT", Off: o, Len: l})
+	_, err := e.Srv.WriteAt(e.payloadFromModel(o, l), o)
+	e.Res.Count("gate_probes_INIT", 1)
+	if err == nil {
+		e.Fail("C17", "gate:write:acknowledged-in-INIT", "a write was acknowledged by an open replica whose mode is neither RW nor WO")
+		return
+	}
+	if v := e.Srv.Replica().GetRevisionCounter(); v != rev {
+		e.Fail("C17", "gate:write:counted-in-INIT", fmt.Sprintf("revision counter moved %d -> %d by a refused write", rev, v))
+		return
+	}
+	for k, f := range map[string]func() error{
+		"removedisk":         func() error { return e.Srv.RemoveDiffDisk("volume-snap-s0.img") },
+		"prepareremovedisk":  func() error { _, err := e.Srv.PrepareRemoveDisk("volume-snap-s0.img"); return err },
+		"setrevisioncounter": func() error { return e.Srv.SetRevisionCounter(rev + 3) },
+	} {
+		e.rec(Op{K: "gate", Arg: k, Note: "INIT"})
+		if f() == nil {
+			e.Fail("C17", "gate:"+k+":accepted-in-INIT", k+" accepted before a mode was set")
+			return
+		}
+	}
+}
